@@ -59,6 +59,7 @@ class Unit:
         self.lost_fns = set()  # functions whose body is in the unit but lost an optional proof hint: their failures are undecided
         self.canaries = []
         self.canary = False
+        self.imports = []   # (unit, fn, clause id): clauses of other units assumed here by a shim, text taken from that unit
 
     def emit(self, text, origin):
         for l in text.split("\n"):
@@ -99,6 +100,34 @@ class FnSpec:
         self.sig = []      # Clause
         self.loops = {}    # k -> [Clause]
         self.inserts = []  # (where, nth, needle, [lines])
+
+
+def clause_text(unit, fn, cid):
+    """the text of clause `cid` of function `fn` in units/<unit>.unit (single source for a shim in another unit that assumes it)"""
+    lines = open(os.path.join(VERIF, "units", unit + ".unit")).read().split("\n")
+    cur = None
+    for i, l in enumerate(lines):
+        if l.startswith(("@fn ", "@slice ", "@macrofn ", "@closure ")):
+            cur = l.split()[3] if l.startswith("@fn ") else None
+        m = re.match(r"@(?:ensures|requires)\[%s(?:\|[^\]]*)?\]\s*(.*)$" % re.escape(cid), l)
+        if m and cur == fn:
+            txt = [m.group(1)]
+            j = i + 1
+            while j < len(lines) and lines[j].startswith((" ", "\t")):
+                txt.append(lines[j].strip()); j += 1
+            return " ".join(txt)
+    return None
+
+
+def _import_clauses(line, u, unit_path, lineno):
+    """`@clause(unit:fn:id)` inside verbatim text -> the text of that clause, proved in the other unit as V:unit:fn:id"""
+    def rep(m):
+        t = clause_text(m.group(1), m.group(2), m.group(3))
+        if t is None:
+            raise ExtractError("%s:%d: imported clause %s not found" % (os.path.basename(unit_path), lineno, m.group(0)))
+        u.imports.append((m.group(1), m.group(2), m.group(3)))
+        return t
+    return re.sub(r"@clause\((\w+):(\w+):([\w.]+)\)", rep, line)
 
 
 def build(unit_path, repo, canary=False):
@@ -197,6 +226,7 @@ def build(unit_path, repo, canary=False):
                 buf.append(tmpl[j]); j += 1
                 if j >= n:
                     raise ExtractError("%s:%d: unterminated @verbatim" % (unit_path, i + 1))
+            buf = [_import_clauses(l, u, unit_path, i + 2 + k_) for k_, l in enumerate(buf)]
             u.emit("\n".join(buf), ("spec", "%s:%d" % (os.path.basename(unit_path), i + 2)))
             i = j + 1
         elif d in ("@fn", "@macrofn", "@slice", "@struct", "@closure"):
